@@ -8,6 +8,8 @@ mod fam_lifecycle;
 mod fam_mailbox;
 mod fam_mailbox_t;
 mod fam_pg;
+mod fam_exitwait;
+mod fam_registry;
 mod tdrv;
 mod hctl;
 mod trace;
@@ -65,6 +67,8 @@ fn main() {
         fam_pg::dispatch,
         fam_clusterelect::dispatch,
         fam_remoteactor::dispatch,
+        fam_exitwait::dispatch,
+        fam_registry::dispatch,
     ];
     for f in fams {
         if let Some(summary) = f(&cmd, &a) {
